@@ -72,6 +72,57 @@ def check(ctx: Ctx, rep: Report):
     r5(ctx, rep)
     r6(ctx, rep)
     r7(ctx, rep)
+    rep.rule("C19.R8", "valid arguments are accepted: a path of a setter that ends without writing (ValueError, silent return) is infeasible for arguments inside the documented domain", 5)
+    r8(ctx, rep)
+
+
+def r8(ctx: Ctx, rep: Report):
+    """The round trip needs the write to happen for every valid argument: on each path of the setters that ends without
+    a write the tests of the arguments must exclude the whole valid domain (power 1..100 %, SoC 0..100 %, DoD 0..100,
+    export limit >= 0).  A guard that is one too strict (>= 100, <= 0, > 0) leaves a valid value on such a path."""
+    from .c18 import _write_events, Wire
+    from ..symx import Fact, joint_contradiction
+    prog = ctx.prog
+    wire = ctx.memo("wire", lambda: Wire(ctx))
+    specs = []
+    for fam in ("ET", "DT", "ES"):
+        ci = prog.cls(fam)
+        specs.append((ci.methods.get("set_grid_export_limit"), {"export_limit": (0, None)}, None))
+        if fam != "DT":
+            specs.append((ci.methods.get("set_ongrid_battery_dod"), {"dod": (0, 100)}, None))
+            specs.append((ci.methods.get("set_operation_mode"), {"eco_mode_power": (1, 100), "eco_mode_soc": (0, 100)}, ("ECO_CHARGE", "ECO_DISCHARGE")))
+    for fn, domain, modes in specs:
+        if fn is None:
+            raise AnalysisError("a setter named in the property is missing")
+        dom = []
+        for param, (lo, hi) in domain.items():
+            if param not in fn.params:
+                raise AnalysisError("%s has no parameter %s" % (fn.short, param))
+            pv = Lin.of_term(("var", param))
+            if lo is not None:
+                dom.append(Fact("ge", pv - Lin.of_const(lo)))
+            if hi is not None:
+                dom.append(Fact("ge", Lin.of_const(hi) - pv))
+        bad, n = None, 0
+        for p in enumerate_paths(prog, fn, no_raise):
+            if modes is not None:
+                in_branch = any(ev.kind == "test" and isinstance(ev.node, ast.Compare) and isinstance(ev.node.ops[0], ast.In) and ev.data is True
+                                and all(m in norm(ev.node) for m in modes) for ev in p.events)
+                if not in_branch:
+                    continue
+            n += 1
+            if _write_events(ctx, wire, fn, p):
+                continue
+            r = Replay(prog, fn, p)
+            argfacts = [f for f in r.facts if f.lin is not None and any(t == ("var", prm) for t in f.lin.terms for prm in domain)]
+            if joint_contradiction(dom, argfacts) is None and bad is None:
+                bad = p
+        if n == 0:
+            raise AnalysisError("%s: no path to judge" % fn.short)
+        rep.check(bad is None, "C19.R8", "accepts:%s" % fn.short, fn.loc(),
+                  "%s: every path without a write is excluded for %s" % (fn.short, ", ".join("%s in [%s, %s]" % (k, v[0], v[1] if v[1] is not None else "inf") for k, v in domain.items())),
+                  bad="%s ends without writing anything on a path that valid arguments (%s) can take [path %s]: the value set is then not the value the getter returns" % (
+                      fn.short, ", ".join("%s in [%s, %s]" % (k, v[0], v[1] if v[1] is not None else "inf") for k, v in domain.items()), bad.describe(8) if bad else ""))
 
 
 def r7(ctx: Ctx, rep: Report):
@@ -465,7 +516,7 @@ def r3(ctx: Ctx, rep: Report):
             eco_writes = [w for w in ws if w[0] == "eco_mode_1"]
             want_enc = "encode_charge" if sel == {"ECO_CHARGE"} else ("encode_discharge" if sel == {"ECO_DISCHARGE"} else None)
             ok_enc = len(eco_writes) == 1 and (want_enc is None or want_enc in norm(eco_writes[0][1]))
-            offs = {w[0]: w[1] for w in ws if re.fullmatch(r"eco_mode_[234]_switch", w[0])}
+            offs = {w[0]: w[1] for w in ws if isinstance(w[0], str) and re.fullmatch(r"eco_mode_[234]_switch", w[0])}
             ok_off = set(offs) == {"eco_mode_2_switch", "eco_mode_3_switch", "eco_mode_4_switch"} and all(norm(v) == "0" for v in offs.values())
             ok_off = ok_off and all(w[3].is_const() and w[3].const == 0 for w in ws if w[0] in offs)
             # the group object used for encoding is the eco_mode_1 setting
@@ -483,6 +534,42 @@ def r3(ctx: Ctx, rep: Report):
                           "groups 2-4 are not all switched off (writes: %s)" % ids if not ok_off else "the encoder object is not the eco_mode_1 setting")))
         if n == 0:
             raise AnalysisError("%s.set_operation_mode has no emulated eco branch" % famname)
+    switch_offsets(ctx, rep)
+
+
+def switch_offsets(ctx: Ctx, rep: Report):
+    """'Switching group N off' writes the one-byte setting eco_mode_N_switch; the getter and the recognisers read the
+    on_off field of the group eco_mode_N.  They are the same byte only if the switch is defined at the register (and
+    half) in which the group's on_off field lies: group offset + byte index // 2, high byte for an even index."""
+    from .c14 import tables_ctx
+    tabs = tables_ctx(ctx)
+    prog = ctx.prog
+    npairs = 0
+    for (fam, attr), rows in tabs.tables.items():
+        by_id = {}
+        for r in rows:
+            by_id.setdefault(r.id_, []).append(r)
+        for gid, grs in by_id.items():
+            m = re.fullmatch(r"eco_mode_(\d)", gid)
+            if not m or gid + "_switch" not in by_id:
+                continue
+            for g in grs:
+                layout = next((GROUP_LAYOUT[c.name] for c in prog.mro(g.cls) if hasattr(c, "name") and c.name in GROUP_LAYOUT), None)
+                if layout is None:
+                    continue
+                idx = next((int(spec.split("@")[1]) for name, spec in layout if name == "on_off"), None)
+                if idx is None:
+                    continue
+                want_off, want_cls = g.offset + idx // 2, ("ByteH" if idx % 2 == 0 else "ByteL")
+                for sw in by_id[gid + "_switch"]:
+                    npairs += 1
+                    ok = sw.offset == want_off and any(getattr(c, "name", "") == want_cls for c in prog.mro(sw.cls))
+                    rep.check(ok, "C19.R3", "switch-offset:%s.%s:%s" % (fam, attr, gid), sw.where(),
+                              "%s.%s: %s_switch is the on_off byte of %s (%s at %d)" % (fam, attr, gid, gid, want_cls, want_off),
+                              bad="%s.%s: '%s_switch' is %s at register %d, but the on_off field of '%s' (%s at %d, byte %d) lies in %s of register %d: switching the group off writes another byte than the one the getter reads" % (
+                                  fam, attr, gid, sw.cls.name, sw.offset, gid, g.cls.name, g.offset, idx, "the high byte" if idx % 2 == 0 else "the low byte", want_off))
+    if npairs < 8:
+        raise AnalysisError("only %d (eco group, switch) pairs found in the settings tables" % npairs)
 
 
 # ----------------------------------------------------------------------- R4
